@@ -306,17 +306,28 @@ func newTimestampSelector(arg parser.Expr, storage *engstore.SelectorPool, opts 
 		hints.Start = start
 		hints.End = end
 		selector := storage.GetSelector(start, end, opts.Step.Milliseconds(), e.LabelMatchers, hints)
-		op, err := newShardedVectorSelector(selector, opts, e.Offset, true)
+		op, err := newShardedVectorSelector(selector, opts, timestampOffset(e), true)
 		return op, err == nil, err
 	case *logicalplan.FilteredSelector:
 		start, end := getTimeRangesForVectorSelector(e.VectorSelector, opts, 0)
 		hints.Start = start
 		hints.End = end
 		selector := storage.GetFilteredSelector(start, end, opts.Step.Milliseconds(), e.LabelMatchers, e.Filters, hints)
-		op, err := newShardedVectorSelector(selector, opts, e.Offset, true)
+		op, err := newShardedVectorSelector(selector, opts, timestampOffset(e.VectorSelector), true)
 		return op, err == nil, err
 	}
 	return nil, false, nil
+}
+
+// timestampOffset is the offset timestamp() applies to its selector. For a
+// selector pinned with @ the Prometheus engine recomputes the offset from the
+// pinned time alone at every step, which leaves an offset modifier written next
+// to the @ without effect; results are kept equal to it.
+func timestampOffset(vs *parser.VectorSelector) time.Duration {
+	if vs.Timestamp != nil {
+		return vs.Offset - vs.OriginalOffset
+	}
+	return vs.Offset
 }
 
 func unpackVectorSelector(t *parser.MatrixSelector) (*parser.VectorSelector, []*labels.Matcher, error) {
